@@ -103,7 +103,9 @@ func c16Mutate(rt *rapid.T, w *l1World, req *model.PushPullMessage, c *l1Client,
 			p.Operations = p.Operations[1:]
 		} else {
 			for _, op := range p.Operations {
-				op.ID.Seq += 5
+				if op.ID != nil { // an earlier mutation of the same request may have added an operation without id
+					op.ID.Seq += 5
+				}
 			}
 		}
 	case "ops-repeated":
